@@ -64,6 +64,10 @@ def flows():
     ss = np.zeros((3, 3))
     ss[0, 2] = 2.0
     out["ss_xz"] = _const_flow("ss_xz", ss)
+    for i, j in [(0, 1), (1, 0), (1, 2), (2, 0), (2, 1)]:  # the other five axis-aligned simple shears
+        m = np.zeros((3, 3))
+        m[i, j] = 2.0
+        out["ss_" + "xyz"[i] + "xyz"[j]] = _const_flow("ss_" + "xyz"[i] + "xyz"[j], m)
     out["ps_xy"] = _const_flow("ps_xy", np.diag([1.0, -1.0, 0.0]))
     g, _ = alph.normalised(alph.VG["gen0"])
     out["gen"] = _const_flow("gen", g)
@@ -334,7 +338,12 @@ class Monitor:
                 if rg in (4, 6) and A is not None and np.isfinite(D).all() and np.isfinite(A).all():
                     from ref import drex_ref
 
-                    act = drex_ref.activity(int(ph), int(fb), np.asarray(A, float), np.asarray(D, float))
+                    # the exclusion zone is stated for the normalised gradient: normalise by
+                    # D's own largest |eigenvalue| (NOT trusting the caller to have done so,
+                    # otherwise a dimensional D would gate every grain and blind the twins)
+                    Dn = np.asarray(D, float)
+                    sm = np.abs(np.linalg.eigvalsh((Dn + Dn.T) / 2)).max()
+                    act = drex_ref.activity(int(ph), int(fb), np.asarray(A, float), Dn / sm if sm > 0 else Dn)
                     mon.act_min = act if mon.act_min is None else np.minimum(mon.act_min, act)
             except Exception:
                 pass
@@ -403,10 +412,20 @@ class StopExploration(Exception):
     after an update hit the time limit: every further update would hit it too)."""
 
 
+CASE_CPU_BUDGET_S = 150.0  # a case of the unchanged tree needs 0.1 .. 20 s of CPU
+LAST = {"budget_stop": False}
+
+
 def bfs(root, letters, depth, step):
     """Breadth-first exploration.  step(parent_state, letter) -> child state or None
     (None = the transition ended in a rejected update; not expanded further).
-    Returns (n_states, n_transitions)."""
+    Returns (n_states, n_transitions).  A case that has used CASE_CPU_BUDGET_S of CPU time
+    is cut short (LAST['budget_stop']; callers report it in the notes): a change that makes
+    every update hundreds of times slower must not turn a 2-minute check into hours."""
+    import time as _time
+
+    t0 = _time.process_time()
+    LAST["budget_stop"] = False
     seen = {canon(root)}
     frontier = [root]
     nstates, ntrans = 1, 0
@@ -414,6 +433,9 @@ def bfs(root, letters, depth, step):
         nxt = []
         for st in frontier:
             for lt in letters:
+                if _time.process_time() - t0 > CASE_CPU_BUDGET_S:
+                    LAST["budget_stop"] = True
+                    return nstates, ntrans
                 try:
                     child = step(st, lt)
                 except StopExploration:
@@ -555,6 +577,8 @@ def twin_explore(res, key, prm_a, prm_b, root, letters, depth, flow_a, flow_b, t
     ns, nt = bfs(root, letters, depth, step)
     res["states"] += ns
     res["trans"] += nt
+    if LAST["budget_stop"]:
+        res["notes"]["cases_cut_at_cpu_budget"] = res["notes"].get("cases_cut_at_cpu_budget", 0) + 1
     return obs
 
 
